@@ -9,6 +9,9 @@ def advDur (durs : List Nat) (drift : Int) (m : Nat) : Int :=
 
 def nextM (n m : Nat) : Nat := if m + 1 ≥ n then 0 else m + 1
 
+theorem nextM_lt {n m : Nat} (hn : 0 < n) : nextM n m < n := by
+  unfold nextM; split <;> omega
+
 /-- the plain sequence of durations the `while dur < end` loop iterates over -/
 def rawLoop (durs : List Nat) (drift end_ : Int) : Nat → Int → Nat → List Int
   | 0, _, _ => []
@@ -55,19 +58,20 @@ theorem endTime_single_succ (t : Int) (s : SNode) (d : Int) (hd : s.dur = some d
 (`dur ≠ 0`): the finished nodes plus the current node, followed by the raw
 remainder. -/
 theorem tlLoop_mid (durs : List Nat) (drift segStart end_ : Int)
-    (hpos : ∀ m, 0 < advDur durs drift m) :
+    (hpos : ∀ m, m < durs.length → 0 < advDur durs drift m) :
     ∀ fuel (dur : Int) m (cur : SNode) (acc : List SNode) (t0 : Int) (dc : Int),
-      0 < dur → cur.dur = some dc →
+      m < durs.length → 0 < dur → cur.dur = some dc →
       expandFrom t0 (tlLoop durs drift segStart end_ fuel dur m cur acc)
         = expandFrom t0 (acc ++ [cur])
           ++ accumulate (endTime t0 (acc ++ [cur])) (rawLoop durs drift end_ fuel dur m) := by
   intro fuel
   induction fuel with
   | zero =>
-    intro dur m cur acc t0 dc _ hc
+    intro dur m cur acc t0 dc _ _ hc
     simp [tlLoop, rawLoop, accumulate, outputNode, hc]
   | succ f ih =>
-    intro dur m cur acc t0 dc hdur hc
+    intro dur m cur acc t0 dc hm hdur hc
+    have hnl : 0 < durs.length := by omega
     unfold tlLoop rawLoop
     by_cases hlt : dur < end_
     · simp only [hlt, if_true]
@@ -77,13 +81,13 @@ theorem tlLoop_mid (durs : List Nat) (drift segStart end_ : Int)
       rw [hd]
       have hnext : (if m + 1 ≥ durs.length then 0 else m + 1) = nextM durs.length m := rfl
       rw [hnext]
-      have hp := hpos m
+      have hp := hpos m hm
       by_cases hsame : some (advDur durs drift m) ≠ cur.dur
       · -- a new node is started
         simp only [if_pos hsame]
         have := ih (dur + advDur durs drift m) (nextM durs.length m)
           { SNode.fresh with dur := some (advDur durs drift m), count := SNode.fresh.count + 1 }
-          (outputNode acc cur) t0 (advDur durs drift m) (by omega) rfl
+          (outputNode acc cur) t0 (advDur durs drift m) (nextM_lt hnl) (by omega) rfl
         rw [this]
         simp only [outputNode, hc, Option.isSome_some, if_true, accumulate]
         rw [expandFrom_append, expandFrom_append, endTime_append, endTime_append]
@@ -98,7 +102,7 @@ theorem tlLoop_mid (durs : List Nat) (drift segStart end_ : Int)
           · exact absurd h hsame
         have := ih (dur + advDur durs drift m) (nextM durs.length m)
           { cur with dur := some (advDur durs drift m), count := cur.count + 1 }
-          acc t0 (advDur durs drift m) (by omega) rfl
+          acc t0 (advDur durs drift m) (nextM_lt hnl) (by omega) rfl
         rw [this]
         have hcur : ({ cur with dur := some (advDur durs drift m), count := cur.count + 1 } : SNode)
             = { cur with count := cur.count + 1 } := by
@@ -114,7 +118,7 @@ theorem tlLoop_mid (durs : List Nat) (drift segStart end_ : Int)
 list means (DASH expansion) is exactly the sequence of durations the loop walked
 over, accumulated from `segStart`. -/
 theorem tlLoop_expand (durs : List Nat) (drift segStart end_ : Int)
-    (hpos : ∀ m, 0 < advDur durs drift m) (fuel m : Nat) :
+    (hpos : ∀ m, m < durs.length → 0 < advDur durs drift m) (fuel m : Nat) (hm : m < durs.length) :
     expand (tlLoop durs drift segStart end_ fuel 0 m SNode.fresh [])
       = accumulate segStart (rawLoop durs drift end_ fuel 0 m) := by
   unfold expand
@@ -128,11 +132,12 @@ theorem tlLoop_expand (durs : List Nat) (drift segStart end_ : Int)
       rw [hd]
       have hnext : (if m + 1 ≥ durs.length then 0 else m + 1) = nextM durs.length m := rfl
       rw [hnext]
-      have hp := hpos m
+      have hp := hpos m hm
+      have hnl : 0 < durs.length := by omega
       have := tlLoop_mid durs drift segStart end_ hpos f (0 + advDur durs drift m)
         (nextM durs.length m)
         { start := some segStart, dur := some (advDur durs drift m), count := 1 } [] 0
-        (advDur durs drift m) (by omega) rfl
+        (advDur durs drift m) (nextM_lt hnl) (by omega) rfl
       simp only [SNode.fresh] at *
       rw [this]
       simp [expandFrom, endTime, accumulate, List.range_succ]
@@ -178,19 +183,20 @@ theorem rawLoop_slice (durs : List Nat) (R : Nat) (end_ : Int) (hn : 0 < durs.le
     · simp [hlt, accumulate, sliceG]
 
 /-- sum of the raw durations reaches the end of the window when fuel suffices -/
-theorem rawLoop_covers (durs : List Nat) (drift end_ : Int) (hpos : ∀ m, 0 < advDur durs drift m) :
-    ∀ (fuel : Nat) (dur : Int) m, end_ - dur ≤ (fuel : Int) →
+theorem rawLoop_covers (durs : List Nat) (drift end_ : Int)
+    (hpos : ∀ m, m < durs.length → 0 < advDur durs drift m) :
+    ∀ (fuel : Nat) (dur : Int) m, m < durs.length → end_ - dur ≤ (fuel : Int) →
       end_ ≤ dur + (rawLoop durs drift end_ fuel dur m).sum := by
   intro fuel
   induction fuel with
-  | zero => intro dur m h; simp [rawLoop]; omega
+  | zero => intro dur m _ h; simp [rawLoop]; omega
   | succ f ih =>
-    intro dur m h
+    intro dur m hm h
     unfold rawLoop
     by_cases hlt : dur < end_
     · simp only [hlt, if_true, List.sum_cons]
-      have hp := hpos m
-      have := ih (dur + advDur durs drift m) (nextM durs.length m) (by omega)
+      have hp := hpos m hm
+      have := ih (dur + advDur durs drift m) (nextM durs.length m) (nextM_lt (by omega)) (by omega)
       omega
     · simp only [hlt, if_false, List.sum_nil]; omega
 
